@@ -52,6 +52,7 @@ struct FdEnt {
     bool canfd_enabled = false;
     int bus = -1;
     std::deque<CanRec> canq;
+    uint32_t can_err_mask = 0;    // CAN_RAW_ERR_FILTER: classes of error message frames this socket wants (0 = none, the default)
     uint64_t rcvtimeo_ns = 0;     // SO_RCVTIMEO: a blocking read/recv gives up with EAGAIN after this long (0 = never)
     uint64_t tx_busy_until = 0;   // CAN transmit queue model (see World::can_txq_cap)
     // timer (node-local CLOCK_REALTIME ns)
